@@ -264,6 +264,13 @@ fn fam_lincomb<const N: usize>(ctx: &Ctx) {
             ms.push(pow2(b - lz) - 1u32);
             ms.push(pow2(b - lz - 1) + 1u32);
             ms.push(pow2(b - lz) - BigUint::from(if b - lz > 64 { MAX } else { 3 }));
+            // pseudo-Mersenne moduli just below a power of two (2^k - 159, 2^k - 2^32 - 977, 2^k - 19): with operands near
+            // the modulus every column of the accumulation carries
+            if b - lz > 64 {
+                ms.push(pow2(b - lz) - 159u32);
+                ms.push(pow2(b - lz) - pow2(32) - 977u32);
+                ms.push(pow2(b - lz) - 19u32);
+            }
         }
     }
     ms.retain(|m| m.bit(0) && m.bits() > 1);
